@@ -85,6 +85,9 @@ func argsText(a []interface{}) string {
 type CustomOp struct {
 	Name string
 	Fn   func(args []interface{}) (interface{}, error)
+	// CtxFn, when set, is what the registered operator runs at evaluation time (it sees the evaluation context);
+	// it must compute the same function as Fn
+	CtxFn func(ctx interface{}, args []interface{}) (interface{}, error)
 }
 
 // RefCov is what the reference evaluation observed about its own control flow.
@@ -458,7 +461,12 @@ func scalarEq(a, b interface{}) bool {
 		y, ok := b.(string)
 		return ok && x == y
 	}
-	return false
+	// values of other (comparable) Go types, e.g. an int or float64 that reached the operator un-normalised:
+	// equal only to a value of the identical type and value
+	if isListOrSet(a) || isListOrSet(b) {
+		return false
+	}
+	return a == b
 }
 
 func applyBuiltin(name string, a []interface{}) (interface{}, error) {
